@@ -46,6 +46,12 @@ inductive HStmt where
   | retIf (c : BExpr) (v : Bool)  -- `if c { return v }`
   | ret (v : Bool)                -- `return v`
   | retB (c : BExpr)              -- `return c`
+  | setIf (c : BExpr) (v : Bool)  -- `if c { err = v }` on a NAMED result: assigns, does not return
+  | retVar                        -- `return err` / bare `return`: the current value of the named result
+  | clobberLoop (field : String)  -- `for _, x := range req.<field> { if err = f(x); err != nil { return <error> } }`:
+                                  -- every iteration OVERWRITES the named result (nil after a good entry)
+  | checkLoop (field : String)    -- a loop over `req.<field>` that may return an error but never assigns the named result
+  | clobber (id : Nat) (src : String) -- any other statement that assigns the named result
   | other (src : String)
   deriving Repr
 
